@@ -213,6 +213,12 @@ def run(ctx):
                 case["md"] = gen_md(r)
         if mode == "attr-rich":
             case["plant"] = gen_plant(r, 4)
+            if (i // 4) % 25 == 0:
+                # quota by construction: a planted constant holding a function value
+                from vf.gen.values import VGen
+
+                fv = VGen(r).value(["func", [["bool"], ["int", 3]], [["int", 3], ["bool"], ["bool"]], ["x", "prelude"]], 2)
+                case["plant"].append({"at": r.randrange(1000), "op": {"k": "Const", "ty": None, "val": fv}})
             feats_of_plant(case["plant"])
             if r.random() < 0.5:
                 case["prog"] = gen_program(r, kind="module", budget=15)
